@@ -16,6 +16,8 @@ import (
 	"fmt"
 	"net"
 	"regexp"
+	"runtime"
+	"runtime/debug"
 	"strings"
 	"sync"
 	"testing"
@@ -393,7 +395,11 @@ func TestVerifC01(t *testing.T) {
 	k := vfNewKit(t, "C01", "c01-auth-gate")
 	defer k.Finish()
 	n := k.N(200, 3000)
+	// go1.25.0: a GC cycle running while a bubble is alive can park a bubbled goroutine in "GC assist wait"
+	// for good (seen under load) and freeze the bubble. Collect between bubbles only.
+	defer debug.SetGCPercent(debug.SetGCPercent(-1))
 	for i := 0; i < n; i++ {
+		runtime.GC()
 		caseID := fmt.Sprintf("c01-%d", i)
 		if rc := k.ReplayCase(); rc != "" && rc != caseID {
 			continue
